@@ -243,6 +243,25 @@ func checkC16(c *core.Ctx) {
 		if !r.OK() {
 			c.Machineryf("design-level rotation model: exit=%d %s\n%s", r.Exit, r.Violated, r.Tail(12))
 		}
+		// the decision table of the automatic N dressings (AutoFert.tla): never negative, stage-keyed dressings once per
+		// season, in their stage / on their day; control: without the key reset a stage-keyed dressing repeats
+		sysWG.Add(1)
+		go func() {
+			defer sysWG.Done()
+			cfg := "AutoFert_design.cfg"
+			if !c.Quick() {
+				cfg = "AutoFert_design_thorough.cfg"
+			}
+			a := c.TLC(core.TLCOpts{Module: "MC_AutoFert", Cfg: cfg, Kind: "design", Workers: 6, Timeout: 30 * time.Minute, Heap: "8g"})
+			if !a.OK() {
+				c.Machineryf("design-level automatic fertilisation model: exit=%d %s\n%s", a.Exit, a.Violated, a.Tail(12))
+			}
+			u := c.TLC(core.TLCOpts{Module: "MC_AutoFert", Cfg: "AutoFert_design_noreset.cfg", Kind: "design-control", Workers: 4, Timeout: 10 * time.Minute})
+			c.Cover("design_control_dressing_key_not_reset_refuted", u.Violated == "A_Once")
+			if u.Violated != "A_Once" {
+				c.Machineryf("control failed: the dressing table without the key reset should violate A_Once (exit=%d %s)", u.Exit, u.Violated)
+			}
+		}()
 	}
 	ps := runOrReplay(c, func() []*gen.Project { return rotationProjects(c, c.Pick(16, 160)) })
 	if len(ps) > 0 {
